@@ -10,6 +10,7 @@ package main
 //   gated    C11/C17: concurrent gateable events + FlushAll with a slow ComposeFrom, exactly-once oracle
 
 import (
+	"bufio"
 	"bytes"
 	"context"
 	"encoding/json"
@@ -462,7 +463,10 @@ func raceStock(h *raceH, p *prng, rounds int, dir string, withEnc bool) {
 			rb, _ := eventlogger.NewBroker()
 			rbuf := &safeBuf{}
 			rb.RegisterNode("json", &eventlogger.JSONFormatter{})
-			rb.RegisterNode("out", &writer.Sink{Writer: rbuf})
+			// the sink's Writer is a buffered writer -- not safe for concurrent use, with a Flush method of its
+			// own: the sink's lock is all that serialises what reaches it, Reopen calls included
+			bw := bufio.NewWriterSize(rbuf, 512)
+			rb.RegisterNode("out", &writer.Sink{Writer: bw})
 			rb.RegisterNode("reject", &eventlogger.JSONFormatterFilter{Predicate: func(interface{}) (bool, error) { return false, nil }})
 			rb.RegisterNode("never", &eventlogger.FileSink{Path: "/dev/null"})
 			rb.RegisterPipeline(eventlogger.Pipeline{PipelineID: "audit", EventType: "t", NodeIDs: []eventlogger.NodeID{"json", "out"}})
@@ -484,7 +488,19 @@ func raceStock(h *raceH, p *prng, rounds int, dir string, withEnc bool) {
 					}
 				}(g)
 			}
+			var stopReopen int32
+			reopenDone := make(chan struct{})
+			go func() {
+				defer close(reopenDone)
+				for atomic.LoadInt32(&stopReopen) == 0 {
+					rb.Reopen(context.Background())
+					runtime.Gosched()
+				}
+			}()
 			rwg.Wait()
+			atomic.StoreInt32(&stopReopen, 1)
+			<-reopenDone
+			bw.Flush()
 			rbuf.mu.Lock()
 			lines := strings.Count(rbuf.b.String(), "\n")
 			rbuf.mu.Unlock()
